@@ -1121,6 +1121,47 @@ func overLimitInputs(d *decoder, rng *rand.Rand) [][]byte {
 				a.Locked = []*protobuf.SubAlloc{{Id: rep([]byte{9}, 32), Bals: bal, IndexMap: &protobuf.IndexMap{}}}
 			}
 		}
+		// the same limits in a later asset row only (the first row stays within them)
+		secondRow := func(a *protobuf.Allocation) *protobuf.Balance {
+			if a.Balances == nil || len(a.Balances.Balances) == 0 || len(a.Balances.Balances[0].Balance) == 0 {
+				return nil
+			}
+			if len(a.Balances.Balances) < 2 && len(a.Assets) == 1 && len(a.Backends) == 1 {
+				row := &protobuf.Balance{}
+				for _, b := range a.Balances.Balances[0].Balance {
+					row.Balance = append(row.Balance, append([]byte(nil), b...))
+				}
+				a.Assets = append(a.Assets, append(append([]byte(nil), a.Assets[0]...), 7))
+				a.Backends = append(a.Backends, a.Backends[0])
+				a.Balances.Balances = append(a.Balances.Balances, row)
+				for _, l := range a.Locked {
+					if l.Bals != nil {
+						l.Bals.Balance = append(l.Bals.Balance, []byte{1})
+					}
+				}
+			}
+			if len(a.Balances.Balances) < 2 {
+				return nil
+			}
+			return a.Balances.Balances[len(a.Balances.Balances)-1]
+		}
+		mk(func(a *protobuf.Allocation) { // a 129-byte balance in the last entry of the last row
+			if row := secondRow(a); row != nil {
+				row.Balance[len(row.Balance)-1] = rep([]byte{0x81}, 129)
+			} else {
+				a.Balances.Balances[0].Balance[0] = rep([]byte{0x81}, 129)
+			}
+		})
+		mk(func(a *protobuf.Allocation) { // limit+1 participants in the last row only
+			row := secondRow(a)
+			if row == nil {
+				row = a.Balances.Balances[0]
+			}
+			row.Balance = nil
+			for i := 0; i < channel.MaxNumParts+1; i++ {
+				row.Balance = append(row.Balance, []byte{1})
+			}
+		})
 		mk(lockedWith(129))
 		mk(lockedWith(1000))
 		mk(func(a *protobuf.Allocation) { // a locked sub-allocation with limit+1 balances
@@ -1131,18 +1172,45 @@ func overLimitInputs(d *decoder, rng *rand.Rand) [][]byte {
 			a.Locked = []*protobuf.SubAlloc{{Id: rep([]byte{9}, 32), Bals: bal, IndexMap: &protobuf.IndexMap{}}}
 		})
 		if p := strings.HasSuffix(d.name, "/LedgerChannelProposal"); p {
-			// an over-long big integer in the funding agreement
-			env := d.codec.Gen(rng, gen.MsgOpts{Small: true}).(*wire.Envelope)
-			var buf bytes.Buffer
-			if codecs.Proto.Encode(&buf, env) == nil {
+			// an over-long big integer (first row; last entry of a later row) or limit+1 entries in a
+			// later row of the funding agreement
+			for variant := 0; variant < 3; variant++ {
+				env := d.codec.Gen(rng, gen.MsgOpts{Small: true}).(*wire.Envelope)
+				var buf bytes.Buffer
+				if codecs.Proto.Encode(&buf, env) != nil {
+					continue
+				}
 				var pe protobuf.Envelope
-				if proto.Unmarshal(buf.Bytes()[2:], &pe) == nil {
-					if fa := pe.GetLedgerChannelProposalMsg().GetBaseChannelProposal().GetFundingAgreement(); fa != nil && len(fa.Balances) > 0 && len(fa.Balances[0].Balance) > 0 {
-						fa.Balances[0].Balance[0] = rep([]byte{0x81}, 129)
-						if data, err := proto.Marshal(&pe); err == nil && len(data) <= 0xffff {
-							out = append(out, cat([]byte{byte(len(data) >> 8), byte(len(data))}, data))
+				if proto.Unmarshal(buf.Bytes()[2:], &pe) != nil {
+					continue
+				}
+				fa := pe.GetLedgerChannelProposalMsg().GetBaseChannelProposal().GetFundingAgreement()
+				if fa == nil || len(fa.Balances) == 0 || len(fa.Balances[0].Balance) == 0 {
+					continue
+				}
+				if variant > 0 && len(fa.Balances) < 2 {
+					if ib := pe.GetLedgerChannelProposalMsg().GetBaseChannelProposal().GetInitBals(); ib != nil && secondRow(ib) != nil {
+						row := &protobuf.Balance{}
+						for _, b := range fa.Balances[0].Balance {
+							row.Balance = append(row.Balance, append([]byte(nil), b...))
 						}
+						fa.Balances = append(fa.Balances, row)
 					}
+				}
+				last := fa.Balances[len(fa.Balances)-1]
+				switch variant {
+				case 0:
+					fa.Balances[0].Balance[0] = rep([]byte{0x81}, 129)
+				case 1:
+					last.Balance[len(last.Balance)-1] = rep([]byte{0x81}, 129)
+				case 2:
+					last.Balance = nil
+					for i := 0; i < channel.MaxNumParts+1; i++ {
+						last.Balance = append(last.Balance, []byte{1})
+					}
+				}
+				if data, err := proto.Marshal(&pe); err == nil && len(data) <= 0xffff {
+					out = append(out, cat([]byte{byte(len(data) >> 8), byte(len(data))}, data))
 				}
 			}
 		}
